@@ -15,7 +15,7 @@ Per generated graph file:
   protocol        accepts(trace) && exited && legal schedule (extracted acceptor of Protocol.v)
   liveness        ow-sim exits 0 within the timeout, no child process left behind
 """
-import sys, os, subprocess, shutil, tempfile, time, hashlib, json, glob
+import sys, os, subprocess, shutil, tempfile, time, hashlib, json, glob, math
 sys.path.insert(0, os.path.dirname(os.path.abspath(__file__)))
 from vlib import *
 import c07hooks
@@ -24,6 +24,8 @@ import c07hooks
 CAT = {'Input': (0, 0, 1, 1), 'Sum': (0, 0, 2, 1), 'Gate': (0, 0, 2, 1), 'FixedPartition': (1, 0, 1, 2),
        'VariablePartition': (0, 0, 2, 2), 'ApplyScalingFactor': (1, 0, 1, 1), 'PartitionDemand': (0, 0, 2, 2),
        'Lag': (1, None, 1, 1), 'Muskingum': (3, 3, 2, 1),
+       # state row = [s, r, n1, n2, q1[n2], q9[n1]] with n1 = ceil(X4), n2 = ceil(2 X4): as wide as the largest X4 needs
+       'GR4J': (4, None, 2, 1),
        # names related by PREFIX (output selection must match whole names): the oracle is the Go kernel itself
        'DynamicSednetGully': (12, 0, 4, 4), 'DynamicSednetGullyAlt': (12, 0, 4, 4),
        'StorageTrapAll': (0, 1, 4, 2),
@@ -35,7 +37,7 @@ CAT = {'Input': (0, 0, 1, 1), 'Sum': (0, 0, 2, 1), 'Gate': (0, 0, 2, 1), 'FixedP
 DIMENSIONED = {'Storage', 'RatingCurvePartition'}
 # may emit NaN (math.Pow of a negative flow); a rating curve panics on NaN, so in a graph that has one these models are sinks
 NAN_SOURCES = {'DynamicSednetGully', 'DynamicSednetGullyAlt'}
-SOURCE_ONLY = {'Storage'}       # never a link destination (its inputs must stay physically meaningful); always stored inputs
+SOURCE_ONLY = {'Storage', 'GR4J'}   # never a link destination (their inputs must stay physically meaningful); always stored inputs
 # every key of sim.Catalog (flag entries are drawn from these too)
 CATALOGUE_NAMES = ['ApplyScalingFactor', 'BankErosion', 'BaseflowFilter', 'ClimateVariables', 'ComputeProportion', 'ConstituentDecay',
                    'DateGenerator', 'DeliveryRatio', 'DepthToRate', 'DynamicSednetGully', 'DynamicSednetGullyAlt', 'EmcDwc',
@@ -120,7 +122,7 @@ def gen_case(rng, cid, big=False, split=None, force=None):
     """A layered DAG over the catalogued models, as a dict."""
     force = force or {}
     G = force.get('G', rng.choice([1, 2, 2, 3, 3, 3, 4, 5] + ([6, 8] if big else [])))
-    T = force.get('T', rng.choice([1, 5, 5, 20] + ([0] if rng.random() < 0.15 else [])))
+    T = force.get('T', rng.choice([1, 2, 3, 5, 5, 20] + ([0] if rng.random() < 0.15 else [])))
     maxn = 6 if big else 4
     pool = sorted(force.get('pool') or CAT)
     names = rng.sample(pool, rng.randint(2, 6 if big else 5))
@@ -130,7 +132,7 @@ def gen_case(rng, cid, big=False, split=None, force=None):
         if must not in names:
             names[-1 - k] = must
     rng.shuffle(names)
-    lagw = rng.randint(1, 3)
+    lagw = force.get('lagw') or rng.choice([1, 2, 3, 3, 4, 6])      # width of the Lag state rows (= the largest lag)
     models = []
     for nm in names:
         np_, ns, ni, no = CAT[nm]
@@ -193,10 +195,21 @@ def gen_case(rng, cid, big=False, split=None, force=None):
             m['dims'] = [rng.choice(choices) for _ in range(m['N'])]
             m['dimmax'] = max(m['dims'])
             m['np'] = (2 + 5 * m['dimmax']) if m['name'] == 'Storage' else (1 + 2 * m['dimmax'])
+        if m['name'] == 'GR4J':
+            m['x4'] = [rng.choice([0.5, 1.0, 1.4, 2.5, 4.0]) for _ in range(m['N'])]
+            m['ns'] = 4 + max([math.ceil(x) + math.ceil(2 * x) for x in m['x4']] or [3])
         for row in range(m['N']):
             nm = m['name']
             p = draw_params(rng, nm, m['ns'], force.get('pzero', 0.1))
             s = [value(rng) for _ in range(m['ns'])]
+            if nm == 'GR4J':
+                x4 = m['x4'][row]
+                n1, n2 = math.ceil(x4), math.ceil(2 * x4)
+                x1, x3 = rng.choice([1.0, 350.0, 1500.0]), rng.choice([1.0, 90.0, 500.0])
+                p = [x1, rng.choice([-10.0, 0.0, 1.5, 5.0]), x3, x4]
+                s = [x1 * rng.choice([0.0, 0.3, 1.0]), x3 * rng.choice([0.0, 0.5, 1.0]), float(n1), float(n2)] + \
+                    [rng.randint(0, 8) / 8.0 for _ in range(n1 + n2)]
+                s += [0.0] * (m['ns'] - len(s))
             if nm in DIMENSIONED:
                 p, s0 = dim_params(rng, nm, m['dims'][row], m['dimmax'])
                 s = s0 or s
@@ -277,7 +290,10 @@ def gen_case(rng, cid, big=False, split=None, force=None):
                                      rng.choice([0, 0, 0, 0, 0, 1, 1, 2, 3]) if outfile and not split else 0)
     return {'id': cid, 'T': T, 'G': G, 'models': models, 'links': links,
             'outfile': outfile, 'flags': flags, 'split': list(split or []),
-            'finalstates': 1 if rng.random() < 0.15 else 0, 'fanin': fanin, 'layout': tuple(layout),
+            # 1: -final-states <fresh file>; 2: into the file the initial states are read from (hot-start file updated in
+            # place); 3: into the structure file; 4: into the time-series file
+            'finalstates': force.get('finalstates', 0 if (split or rng.random() < 0.7) else rng.choice([1, 1, 2, 2, 2, 3, 3, 4])),
+            'fanin': fanin, 'layout': tuple(layout),
             'special': bool(force.get('special')), 'recycle_prone': bool(force.get('equal'))}
 
 
@@ -577,6 +593,12 @@ def main():
     for i in range(0 if replay else (10 if quick else 60)):
         add(gen_case(rng, 'n%04d' % i, force={'special': True, 'pool': IEEE_TOLERANT, 'T': rng.choice([5, 12, 20]),
                                                'G': rng.choice([2, 3, 4])}))
+    # state rows wider than the run is long: several Lag (and GR4J) nodes per generation with differing lags up to 4-8
+    # steps and only 1-3 time steps, so that the "lag longer than the window" paths run next to each other
+    for i in range(0 if replay else (8 if quick else 50)):
+        add(gen_case(rng, 'l%04d' % i, force={'must': [['Lag'], ['Lag'], ['Lag', 'GR4J']][i % 3], 'equal': True, 'pzero': 0.1,
+                                               'lagw': rng.choice([4, 5, 6, 8]), 'T': rng.choice([1, 2, 3]),
+                                               'G': rng.choice([2, 3, 4])}))
     # many generations of EQUAL size of the models whose kernels return early on a parameter that is exactly 0, some
     # nodes with that parameter 0 and others not, output file given; run with delays so that the writer goroutines keep
     # up with the main loop (generations are written and purged while later ones are still to be simulated)
@@ -607,6 +629,7 @@ def main():
         cands = [m['name'] for m in cd['models'] if m['N'] > 0]
         cd['split'] = [rng.choice(cands)]
         cd['outfile'] = 1
+        cd['finalstates'] = min(cd['finalstates'], 1)
         add(cd)
 
     # ---- run the real ow-sim (several simgen processes in parallel, different scheduling conditions)
@@ -747,6 +770,22 @@ def main():
         stats['flag_cases'] += 1 if cd['flags'] else 0
         stats['split_cases'] += 1 if cd['split'] else 0
         stats['finalstates_cases'] += 1 if cd['finalstates'] else 0
+        if cd['finalstates'] >= 2 and cd['outfile']:
+            key_ = 'final_states_written_into_' + ['', '', 'the_initial_states_file', 'the_structure_file', 'the_timeseries_file'][cd['finalstates']]
+            stats[key_] = stats.get(key_, 0) + 1
+            if cd['finalstates'] == 2 or (cd['finalstates'] == 3 and cd.get('layout', (0, 0, 0, 0))[2] == 0):
+                if any(m['ns'] > 0 and sum(1 for x in m['counts'] if x) >= 2 for m in cd['models']):
+                    stats['hot_start_file_updated_in_place_stateful_multi_generation'] = \
+                        stats.get('hot_start_file_updated_in_place_stateful_multi_generation', 0) + 1
+        for m in cd['models']:
+            if m['name'] == 'Lag' and m.get('nodes') and cd['T'] > 0:
+                lo = 0
+                for b in m['batches']:
+                    lags = [int(m['nodes'][r_][0][0]) for r_ in range(lo, b)]
+                    if len(lags) >= 2 and any(x > cd['T'] for x in lags[:-1]):
+                        stats['lag_longer_than_run_beside_another_node'] = stats.get('lag_longer_than_run_beside_another_node', 0) + 1
+                        break
+                    lo = b
         stats['fanin_ge2'] += 1 if cd.get('fanin', 0) >= 2 else 0
         nontrivial = cd['G'] >= 2 and len(cd['links']) >= 1
         c.count(cd['id'], nontrivial=nontrivial)
@@ -843,6 +882,8 @@ def main():
                     b = mo[tag].get((m['name'], label))
                     if not cd['outfile']:
                         a = 'NONE'
+                    if label == 'states' and cd['finalstates'] >= 2 and m['N'] == 0:
+                        a = 'NONE'      # the (empty) initial-states dataset of the input file the final states go to
                     if a != b:
                         c.corr_broken.append({'case': cd['id'], 'diff': '%s %s %s impl=%s model=%s' %
                                               (tag, m['name'], label, (a or '')[:120], (b or '')[:120])})
@@ -884,7 +925,10 @@ def main():
                      'return early on a zero parameter (ApplyScalingFactor, FixedConcentration, EmcDwc, PassLoadIfFlow, DepthToRate) '
                      'in 5-8 equal-sized generations run with delays so that generations are written and purged while later ones '
                      'are still to run; stored series with NaN / +-Inf / -0 at the first, middle and last positions of otherwise '
-                     'zero, minus-zero or ordinary series over the models that accept any value, compared bit for bit with NaN = NaN) '
+                     'zero, minus-zero or ordinary series over the models that accept any value, compared bit for bit with NaN = NaN; '
+                     '-final-states into a fresh file, into the file the initial states are read from (hot-start file updated in '
+                     'place), into the structure file and into the time-series file; Lag state rows up to 8 wide with runs of 1-3 '
+                     'steps and several Lag / GR4J nodes (per-node X4, padded state rows) per generation) '
                      'written through io.H5Ref* into fake-HDF5 files, run by the '
                      'real ow-sim binary under GOMAXPROCS in {1,2,4,16} with random delays at the trace points; every dataset '
                      'of the output compared bit-for-bit with (i) every node run alone through sim.Catalog (oracle), (ii) the '
